@@ -133,6 +133,14 @@ def k2_k3_ops(F, R, M, roles):
         where = fn_site(F, b['id'])
         live = sg.live_nodes()
         subs = [n for n in sg.calls(lambda d: d.get('fn') in roles and roles[d['fn']] in ('add', 'add_notify_wait_pop', 'pop_used')) if n.id in live]
+        # only the submission sites this operation can reach: a shared helper that switches on a request kind chosen by
+        # the caller contributes the arm selected by this operation's (constant) choice
+        if not back_edges(sg):
+            try:
+                feas = set(e[1] for p in PathEnum(sg).run() if not p.panicked for e in p.effects if e[0] == 'call')
+                subs = [n for n in subs if n.id in feas]
+            except PathLimit:
+                pass
         want_ty, want_sector, want_in, want_out = EXPECT[b['name']]
         # flush has the submission on one branch only; others exactly one submission site
         if not subs:
